@@ -1,6 +1,7 @@
 import VlsModel.Prim.U64
 import VlsModel.Gen.Onchain
 import VlsModel.Model.Velocity
+import VlsModel.Model.Wallet
 /-
 Model of the layer-1 spend check (property C08):
 
@@ -106,6 +107,17 @@ structure Out where
                               -- pathLen > 0 ∧ ¬canSpend ∧ ¬scriptAllow
   chan : Option ChanFacts
 deriving DecidableEq, Repr
+
+/-- the facts `validate_onchain_tx` obtains from the wallet for one output, computed by the model of
+    `impl Wallet for Node` (Model/Wallet.lean) from the structure of the script, the output's derivation path, the
+    key-derivation style and the allowlist -/
+def outOfScript (style : Wallet.Style) (allow : List Wallet.Allowable) (value : Nat) (path : List Nat) (s : Wallet.Script)
+    (chan : Option ChanFacts) : Out :=
+  { value := value, pathLen := path.length, canSpend := Wallet.canSpend style path s,
+    scriptAllow := allow.contains (.script s),
+    xpub := match Wallet.xpubLoop path s allow with
+      | .yes => .yes | .no => .no | .panic => .panic,
+    chan := chan }
 
 /-- what one iteration of the output loop does -/
 inductive OutRes
